@@ -72,9 +72,19 @@ impl core::ops::Not for Fixnum {
 // ---------------- dashu big integers / rationals: opaque exec types with a mathematical ghost view.
 #[verifier::external_body]
 pub struct Integer { _p: u8 }
+pub open spec fn mag_below(i: int, b: int) -> bool { -b < i && i < b }
 impl Integer {
     pub uninterp spec fn v(&self) -> int;
     #[verifier::external_body] pub fn is_zero(&self) -> (r: bool) ensures r == (self.v() == 0) { unimplemented!() }
+    // dashu BitTest::bit_len: number of bits of the MAGNITUDE (ASSUMED; stated at the widths around the
+    // small-integer and machine-word boundaries)
+    #[verifier::external_body] pub fn bit_len(&self) -> (r: usize)
+        ensures (r == 0) == (self.v() == 0),
+                (r <= 54) == mag_below(self.v(), 0x40000000000000), (r <= 55) == mag_below(self.v(), 0x80000000000000),
+                (r <= 56) == mag_below(self.v(), 0x100000000000000), (r <= 57) == mag_below(self.v(), 0x200000000000000),
+                (r <= 62) == mag_below(self.v(), 0x4000000000000000), (r <= 63) == mag_below(self.v(), 0x8000000000000000),
+                (r <= 64) == mag_below(self.v(), 0x10000000000000000),
+    { unimplemented!() }
     #[verifier::external_body] pub fn is_one(&self) -> (r: bool) ensures r == (self.v() == 1) { unimplemented!() }
     #[verifier::external_body] pub fn is_negative(&self) -> (r: bool) ensures r == (self.v() < 0) { unimplemented!() }
     #[verifier::external_body] pub fn is_positive(&self) -> (r: bool) ensures r == (self.v() > 0) { unimplemented!() }
